@@ -73,6 +73,8 @@ Definition rule_table : list entry := [
   ("_broadcast_to_matmul.py:one_reshape_matmul_reshape_rule", (["SymbolicDim"; "shape"],
      Modelled ["C09_b2m_guard_static"; "C09_static_shape_valuation_independent"]));
   ("_ir_utils.py:has_rank", (["rank"; "shape"], Modelled ["C09_squeeze_reshape_1d_sound"]));
+  ("_ir_utils.py:broadcast_keeps_rank", (["rank"; "shape"],
+     Modelled ["C09_rank_valuation_independent"; "C09_broadcast_keeps_rank_sound"; "C09_broadcast_keeps_rank_no_reference"]));
   ("_ir_utils.py:get_dim", (["SymbolicDim"; "rank"; "shape"],
      Differential "returns the annotated dim, no decision; not called by the anchored rule files (used by the fusion rules: C19)"));
   ("_ir_utils.py:same_shape", (["has_unknown_dim"], Modelled ["C09_iu_same_shape_sound"]));
